@@ -1,0 +1,9 @@
+//go:build verif
+
+// Machine-checked contracts for package kv. Read as text by the verifier in
+// /verif (gowp); this file contains no executable code.
+package kv
+
+// Ghost effect counters: mutating object-store requests issued so far.
+//@ ghostvar puts int
+//@ ghostvar deletes int
